@@ -15,7 +15,7 @@ META = {
     'required_obs': {'quick': ['flushes>=3', 'flush-at-exact-fit', 'remainder-chunk', 'crash-first', 'crash-middle', 'crash-last',
                                'prior-longer', 'prior-shorter', 'ocs-float', 'ocs-eq-record', 'ics-gt-rows', 'ics-1',
                                'invalid-config-tried', 'reported-size-compared', 'window', 'contract-evals-write_bytes',
-                               'contract-evals-buffer-invariant']},
+                               'contract-evals-buffer-invariant', 'one-data-object-many-configurations']},
     'assumptions': ['crash points are flush boundaries (what the statement speaks of); a kill inside one write(2) is out of scope',
                     'origins carry explicit file_set_number / creation_time'],
     'technique': ('runtime monitoring + fault injection: flush-tap event log with on-disk snapshots, byte differential across '
@@ -32,6 +32,9 @@ def cases(tier, seed):
         yield {'stratum': 'matrix', 'index': k, 'kind': 'matrix'}
     for k in range(16 if tier == 'quick' else 300):
         yield {'stratum': 'crash', 'index': k, 'kind': 'crash'}
+    # one DLISFile and ONE caller-owned data object written several times, each time with other chunk sizes
+    for k in range(30 if tier == 'quick' else 600):
+        yield {'stratum': 'one-data-object-many-configurations', 'index': k, 'kind': 'shared'}
     yield {'stratum': 'invalid', 'index': 0, 'kind': 'invalid'}
     if tier == 'thorough':
         yield {'stratum': 'default-output-chunk', 'index': 0, 'kind': 'default'}
@@ -216,6 +219,45 @@ def run_case(case):
                     vio.append({'prop': PROP, 'kind': 'reported-size', 'mech': 'reported-size', 'detail': f'{label}: reported {rep2}, file {len(d2)}'})
             check_flushes(label, ref, s2, d2)
         sample = {'rows': rows, 'max_record_length': mx, 'file_size': size, 'configs': [(str(a), str(b_), c) for a, b_, c in cfgs[:6]]}
+    elif case['kind'] == 'shared':
+        sp = gen.fastpath_spec(r) if r.random() < 0.6 else gen.frame_spec(r, sources=('struct', 'dict', 'hdf5'), casts=False,
+                                                                          mx=r.choice([128, 1024, 8192]), max_width=300)
+        mx = sp['sul']['max_record_length']
+        src = sp['write']['source']
+        rows = [o for o in sp['ops'] if o['op'] == 'channel'][0]['data']['shape'][0]
+        base_w = {k_: v for k_, v in sp['write'].items() if k_ in ('source', 'perm_seed', 'extra', 'struct_variant')}
+        ref_sp = copy.deepcopy(sp)
+        ref_sp['write'] = {'source': 'inline', 'output_chunk_size': 2 ** 20}
+        ref_run = harness.execute(ref_sp, want_taps=False)
+        if ref_run.data is None:
+            bump('reference-raised:%s' % ref_run.wout[2][:50])
+            return {'evals': 1, 'violations': [], 'obs': obs, 'sigs': [], 'sample': None}
+        ref = ref_run.data
+        b = S.build(sp)
+        data_obj = S.make_write_data(sp, b, harness.scratch_dir())
+        bump('one-data-object-many-configurations')
+        cfgs = [(r.choice(gen.chunk_choices(rows)), r.choice([mx, mx + 2, 2 * mx, 3 * mx + 7, max(mx, len(ref)), 2 ** 20])) for _ in range(r.choice([3, 4, 5]))]
+        for j, (ics, ocs) in enumerate(cfgs):
+            path = harness.fresh_path()
+            spw = copy.deepcopy(sp)
+            spw['write'] = dict(base_w, input_chunk_size=ics, output_chunk_size=ocs)
+            w2 = S.do_write(spw, b, path, harness.scratch_dir(), data=data_obj)
+            d2 = None
+            if os.path.exists(path):
+                with open(path, 'rb') as f:
+                    d2 = f.read()
+                os.remove(path)
+            evals += 1
+            sigs.add(f'shared:{src}:{j}')
+            label = f'write #{j + 1} of one DLISFile from one {src} data object, input_chunk_size={ics!r} output_chunk_size={ocs!r}'
+            if w2[0] != 'ok':
+                vio.append({'prop': PROP, 'kind': 'accepted-config-raises', 'mech': 'config-raises:shared-data-object',
+                            'detail': f'{label}: {w2[1]}: {w2[2]}'})
+            elif d2 != ref:
+                d = next((i for i in range(min(len(ref), len(d2))) if ref[i] != d2[i]), min(len(ref), len(d2)))
+                vio.append({'prop': PROP, 'kind': 'bytes-differ', 'mech': 'bytes-differ:shared-data-object',
+                            'detail': f'{label}: differs from the reference at offset {d} (sizes {len(d2)} vs {len(ref)})'})
+        sample = {'rows': rows, 'max_record_length': mx, 'source': src, 'configs': [(str(a), str(b_)) for a, b_ in cfgs]}
     elif case['kind'] == 'crash':
         sp, mx = make_spec(r)
         wout, ref, snaps, reported = write(sp, None, 2 ** 20)
